@@ -75,6 +75,7 @@ func (c *formatterClass_) MakeWithMaximum(maximum int) FormatterLike {
 type formatter_ struct {
 	class_   FormatterClassLike
 	depth_   int
+	level_   int // The number of sequences (of any size) being formatted.
 	maximum_ int
 	result_  sts.Builder
 }
@@ -98,6 +99,7 @@ func (v *formatter_) GetMaximum() int {
 func (v *formatter_) FormatValue(value any) (source string) {
 	// Start from a clean state even if a previous call panicked part way.
 	v.depth_ = 0
+	v.level_ = 0
 	v.result_.Reset()
 	v.formatValue(value)
 	v.appendNewline()
@@ -124,7 +126,7 @@ func (v *formatter_) formatArray(array any) {
 	var reflected = ref.ValueOf(array)
 	var size = reflected.Len()
 	switch {
-	case v.depth_ == v.maximum_:
+	case v.level_ > v.maximum_:
 		// Truncate the recursion.
 		v.appendString("...")
 	case size == 0:
@@ -157,7 +159,7 @@ func (v *formatter_) formatAssociations(associations any) {
 	var iterator = sequence.MethodByName("GetIterator").Call([]ref.Value{})[0]
 	var size = sequence.MethodByName("GetSize").Call([]ref.Value{})[0].Interface()
 	switch {
-	case v.depth_ == v.maximum_:
+	case v.level_ > v.maximum_:
 		// Truncate the recursion.
 		v.appendString("...")
 	case size == 0:
@@ -303,7 +305,7 @@ func (v *formatter_) formatMap(map_ any) {
 	var size = reflected.Len()
 	var keys = reflected.MapKeys()
 	switch {
-	case v.depth_ == v.maximum_:
+	case v.level_ > v.maximum_:
 		// Truncate the recursion.
 		v.appendString("...")
 	case size == 0:
@@ -384,7 +386,9 @@ func (v *formatter_) formatRune(rune_ rune) {
 
 func (v *formatter_) formatSequence(sequence any) {
 	v.appendString("[")
+	v.level_++
 	v.formatItems(sequence)
+	v.level_--
 	v.appendString("]")
 }
 
@@ -420,7 +424,7 @@ func (v *formatter_) formatValues(values any) {
 	var iterator = sequence.MethodByName("GetIterator").Call([]ref.Value{})[0]
 	var size = sequence.MethodByName("GetSize").Call([]ref.Value{})[0].Interface()
 	switch {
-	case v.depth_ == v.maximum_:
+	case v.level_ > v.maximum_:
 		// Truncate the recursion.
 		v.appendString("...")
 	case size == 0:
